@@ -66,6 +66,7 @@ enum {
 };
 
 static Byte MaxMoto, MaxIntel;
+static Word MOSRecCnt;
 
 static tHexFormat DestFormat;
 
@@ -618,6 +619,7 @@ static void ProcessFile(char const* FileName, LongWord Offset) {
                     case eHexFormatMOS:
                         errno = 0;
                         fprintf(TargFile, "%04X\n", LoWord(ChkSum));
+                        MOSRecCnt++;
                         break;
                     case eHexFormatIntel:
                     case eHexFormatIntel16:
@@ -1248,6 +1250,7 @@ int main(int argc, char** argv) {
     FormatOccured = 0;
     MaxMoto       = 0;
     MaxIntel      = 0;
+    MOSRecCnt     = 0;
 
     if (DestFormat == eHexFormatC) {
         errno = 0;
@@ -1353,7 +1356,8 @@ int main(int argc, char** argv) {
 
     if (FormatOccured & eMOSOccured) {
         errno = 0;
-        fprintf(TargFile, ";0000040004\n");
+        fprintf(TargFile, ";00%04X%04X\n", LoWord(MOSRecCnt),
+                LoWord(Lo(MOSRecCnt) + Hi(MOSRecCnt)));
         ChkIO(TargName);
     }
 
